@@ -79,7 +79,7 @@ def cmd_import(wt, sid):
     shutil.rmtree(SCRATCH, ignore_errors=True)
     return 0 if ok else 1
 
-def cmd_run(ids, tier, all_props):
+def cmd_run(ids, tier, all_props, only_props=None):
     if not ids:
         ids = sorted(os.listdir(os.path.join(ROOT, "seeded")))
     summary = {}
@@ -89,7 +89,7 @@ def cmd_run(ids, tier, all_props):
             continue
         meta = json.load(open(os.path.join(d, "meta.json")))
         prop = meta.get("property", sid[:3])
-        props = ALL if all_props else [prop]
+        props = only_props if only_props else (ALL if all_props else [prop])
         sync_repo(); sync_verif()
         rc, out, _ = sh(f"patch -p1 < {d}/patch.diff", SCRATCH + "/repo")
         if rc != 0:
@@ -116,11 +116,12 @@ def main():
     ap = argparse.ArgumentParser()
     ap.add_argument("cmd"); ap.add_argument("args", nargs="*")
     ap.add_argument("--tier", default="quick"); ap.add_argument("--all-props", action="store_true")
+    ap.add_argument("--props", help="comma-separated list of checks to run instead of the seed's own")
     a = ap.parse_args()
     if a.cmd == "import":
         sys.exit(cmd_import(a.args[0], a.args[1]))
     if a.cmd == "run":
-        sys.exit(cmd_run(a.args, a.tier, a.all_props))
+        sys.exit(cmd_run(a.args, a.tier, a.all_props, a.props.split(",") if a.props else None))
     print(__doc__); sys.exit(2)
 
 main()
